@@ -357,6 +357,7 @@ def run(rep, facts, tier):
     rule_16_11(rep, fx)
     rule_16_12(rep, fx)
     rule_16_13(rep, fx)
+    rule_16_14(rep, fx)
 
     # ------------------------------------------------------------ R16.8 crossed roles (shared lint, rdv/swaplint.py)
     from rdv import swaplint
@@ -960,3 +961,53 @@ def rule_16_13(rep, fx):
         ok = any(callee_res(t).endswith('assume_unique_for_key') and term_has(og.of_operand(t['args'][0], bb, 'term'), lambda x: x[0] == 'field' and x[1] == 'iv' and x[2] == ('param', 1))
                  for bb, t in adv[0].calls())
     rep.check(ok, 'R16.13', 'TrivialNonceSequence::advance', 'Nonce = self.iv', 'the nonce handed to ring is not the initialisation vector the sequence was made from', adv[0].where() if adv else '')
+
+
+def rule_16_14(rep, fx):
+    """Key material is what decides whose traffic decodes. A registration that is refused ("handle already associated") must not have changed it (after seed C16f)."""
+    CB = 'security::cryptographic::cryptographic_builtin::CryptographicBuiltin::'
+    rep.rule('R16.14', 'a refused registration leaves the key store as it was: in every CryptographicBuiltin method that inserts into one of the key-material maps '
+                       '(common_encode_key_materials, receiver_specific_encode_key_materials, decode_key_materials) and can answer Err afterwards, each path from the insert to an Err '
+                       'puts the displaced value back (insert(same map, same handle, the Some(..) the first insert returned)); a method that tests before it inserts '
+                       '(contains_key / entry) has no such path')
+    MAPS = ('common_encode_key_materials', 'receiver_specific_encode_key_materials', 'decode_key_materials')
+    n = 0
+    for b in fx.bodies:
+        if not b.key.startswith(CB) or b.kind not in ('fn', 'assoc_fn'):
+            continue
+        og = None
+        ins = []
+        for bb, t in b.calls():
+            if callee_res(t).endswith('HashMap::<K, V, S, A>::insert') or (callee_res(t).endswith('::insert') and 'Map' in callee_res(t)):
+                og = og or Origins(b, summaries=False)
+                m = og.of_operand(t['args'][0], bb, 'term')
+                which = [x for x in MAPS if term_has(m, lambda y: y[0] == 'field' and y[1] == x)]
+                if which:
+                    ins.append((bb, t, which[0]))
+        if not ins:
+            continue
+        P = Pos(b)
+        errs = [(sb, si) for sb, si, st in b.statements() if st['s'] == 'assign' and st['lhs']['l'] == 0 and not st['lhs'].get('p') and st['rv']['r'] == 'agg' and st['rv'].get('variant') == 'Err']
+        for bb, t, which in ins:
+            v = og.of_operand(t['args'][2], bb, 'term')
+            if term_has(v, lambda y: y[0] == 'variant' and y[1] == 'Some' and term_has(y, lambda z: z[0] == 'call' and z[1].endswith('::insert'))):
+                continue            # this IS a put-back
+            later_errs = [e for e in errs if P.can_reach((bb, 'term'), e)]
+            if not later_errs:
+                continue
+            n += 1
+            backs = []
+            for b2, t2, w2 in ins:
+                if b2 == bb or w2 != which:
+                    continue
+                v2 = og.of_operand(t2['args'][2], b2, 'term')
+                k1 = og.of_operand(t['args'][1], bb, 'term')
+                k2 = og.of_operand(t2['args'][1], b2, 'term')
+                if k1 == k2 and term_has(v2, lambda y: y[0] == 'variant' and y[1] == 'Some' and term_has(y, lambda z: z[0] == 'call' and z[1].endswith('::insert') and len(z) > 3 and z[3] == bb)):
+                    backs.append((b2, 'term'))
+            ok = bool(backs) and not any(P.can_reach((bb, 'term'), e, avoid_pos=backs) for e in later_errs)
+            rep.check(ok, 'R16.14', '%s/%s/refusal-restores' % (b.key[len(CB):], which), 'insert .. Err => the displaced key material is put back first',
+                      '%s answers Err after it has already replaced the key material stored for the handle in %s, without putting the old one back: a refused (repeated or foreign) '
+                      'registration changes which traffic decodes - what was produced under the refused key material is accepted, the registered sender is locked out' %
+                      (b.key[len(CB):], which), b.where(bb))
+    rep.floor('R16.14', n, 3, 'insert-then-maybe-refuse sites over the key-material maps')
